@@ -949,3 +949,135 @@ package rtcp
 //@ func (t *TransportLayerCC) Len() (result uint16)
 //@   safety[C09,C17]
 //@   requires nonnil: forall k :: 0 <= k && k < len(t.RecvDeltas) ==> t.RecvDeltas[k] != nil
+
+// ===================================================================================================
+// rfc8888.go
+// ===================================================================================================
+
+//@ func specCCBlocksLen(bs []CCFeedbackReportBlock, n int) (result int)
+//@   rec
+
+//@ func (b CCFeedbackMetricBlock) marshal() (result []byte, err error)
+//@   safety[C09]
+//@   fresh
+//@   ensures[C08] ok: err == nil
+//@   ensures[C03,C16] word: len(result) == 2 && be16(result, 0) == specMetricWord(b)
+
+//@ func (b *CCFeedbackMetricBlock) unmarshal(rawPacket []byte) (err error)
+//@   safety[C01]
+//@   modifies *b
+//@   nocap
+//@   allocates[C01] 0
+//@   ensures[C01,C04,C16] ok: (err == nil) <==> len(rawPacket) == 2
+//@   ensures[C04,C16] value: err == nil ==> *b == specMetricDecode(be16(rawPacket, 0))
+
+//@ func (b *CCFeedbackReportBlock) len() (result int)
+//@   safety[C01,C09,C17]
+//@   allocates[C01] 0
+//@   ensures size: result == specCCBlockLen(len(b.MetricBlocks))
+//@   ensures atleast: result >= 8 && result%4 == 0 && result >= 8 + 2*len(b.MetricBlocks)
+
+//@ func (b CCFeedbackReportBlock) marshal() (result []byte, err error)
+//@   safety[C09]
+//@   fresh
+//@   ensures[C08] ok: (err == nil) <==> len(b.MetricBlocks) <= 16384
+//@   ensures[C08] nobytes: err != nil ==> len(result) == 0
+//@   ensures[C03,C05] size: err == nil ==> len(result) == specCCBlockLen(len(b.MetricBlocks))
+//@   ensures[C03] head: err == nil ==> be32(result, 0) == b.MediaSSRC && be16(result, 4) == b.BeginSequence
+//@   ensures[C03] numreports: err == nil ==> be16(result, 6) == uint16(len(b.MetricBlocks))
+//@   ensures[C03,C16] blocks: forall k :: err == nil && 0 <= k && k < len(b.MetricBlocks) ==> be16(result, 8+2*k) == specMetricWord(b.MetricBlocks[k])
+//@   ensures[C03] padzero: err == nil && len(b.MetricBlocks)%2 == 1 ==> be16(result, 8+2*len(b.MetricBlocks)) == 0
+//@   loop 1
+//@     invariant 0 <= iter() && iter() <= len(b.MetricBlocks) && len(b.MetricBlocks) <= 16384
+//@     invariant[C03] be32(buf, 0) == b.MediaSSRC && be16(buf, 4) == b.BeginSequence && unchanged(be16(buf, 6))
+//@     invariant[C03,C16] forall k :: 0 <= k && k < iter() ==> be16(buf, 8+2*k) == specMetricWord(b.MetricBlocks[k])
+//@     invariant[C03] forall k :: 8+2*iter() <= k && k < len(buf) ==> buf[k] == 0
+//@     decreases len(b.MetricBlocks) - iter()
+
+//@ func (b *CCFeedbackReportBlock) unmarshal(rawPacket []byte) (err error)
+//@   safety[C01]
+//@   modifies *b
+//@   nocap
+//@   allocates[C01] 4*len(b.MetricBlocks)
+//@   ensures[C01,C04] fits: err == nil ==> len(rawPacket) >= 8 + 2*len(b.MetricBlocks) && len(b.MetricBlocks) <= 65536
+//@   ensures[C04] head: err == nil ==> b.MediaSSRC == be32(rawPacket, 0) && b.BeginSequence == be16(rawPacket, 4)
+//@   ensures[C04] numreports: err == nil ==> len(b.MetricBlocks) == int(be16(rawPacket, 6))
+//@   ensures[C04,C16] blocks: forall k :: err == nil && 0 <= k && k < len(b.MetricBlocks) ==> b.MetricBlocks[k] == specMetricDecode(be16(rawPacket, 8+2*k))
+//@   loop 1
+//@     invariant 0 <= i && i <= numReports && len(b.MetricBlocks) == numReports && unchanged(b.MediaSSRC) && unchanged(b.BeginSequence) && unchanged(b.MetricBlocks)
+//@     invariant[C04,C16] forall k :: 0 <= k && k < i ==> b.MetricBlocks[k] == specMetricDecode(be16(rawPacket, 8+2*k))
+//@     decreases numReports - i
+
+//@ func (b *CCFeedbackReport) MarshalSize() (result int)
+//@   safety[C09,C17]
+//@   mathint
+//@   ensures size: result == 12 + specCCBlocksLen(b.ReportBlocks, len(b.ReportBlocks))
+//@   ensures aligned: result%4 == 0 && result >= 12
+//@   loop 1
+//@     invariant 0 <= iter() && iter() <= len(b.ReportBlocks) && n == specCCBlocksLen(b.ReportBlocks, iter()) && n%4 == 0 && n >= 0
+//@     decreases len(b.ReportBlocks) - iter()
+
+//@ func (b *CCFeedbackReport) Len() (result int)
+//@   safety[C09,C17]
+//@   mathint
+//@   ensures[C05] size: result == 12 + specCCBlocksLen(b.ReportBlocks, len(b.ReportBlocks))
+
+//@ func (b *CCFeedbackReport) Header() (result Header)
+//@   safety[C09,C17]
+//@   mathint
+//@   ensures hdr: result == Header{Padding: false, Count: 11, Type: TypeTransportSpecificFeedback, Length: uint16((12+specCCBlocksLen(b.ReportBlocks, len(b.ReportBlocks)))/4 - 1)}
+
+//@ func (b CCFeedbackReport) DestinationSSRC() (result []uint32)
+//@   safety[C09,C10]
+//@   fresh
+//@   ensures[C10] n: len(result) == len(b.ReportBlocks)
+//@   ensures[C10] blocks: forall k :: 0 <= k && k < len(b.ReportBlocks) ==> result[k] == b.ReportBlocks[k].MediaSSRC
+//@   loop 1
+//@     invariant 0 <= iter() && iter() <= len(b.ReportBlocks)
+//@     invariant[C10] forall k :: 0 <= k && k < iter() ==> ssrcs[k] == b.ReportBlocks[k].MediaSSRC
+//@     decreases len(b.ReportBlocks) - iter()
+
+//@ func (b CCFeedbackReport) Marshal() (result []byte, err error)
+//@   safety[C09]
+//@   fresh
+//@   mathint
+//@   requires[C09] bounded: 12 + specCCBlocksLen(b.ReportBlocks, len(b.ReportBlocks)) <= 4*65536
+//@   ensures[C08] blocks: forall k :: err == nil && 0 <= k && k < len(b.ReportBlocks) ==> len(b.ReportBlocks[k].MetricBlocks) <= 16384
+//@   ensures[C08] complete: exists k :: err != nil ==> 0 <= k && k < len(b.ReportBlocks) && len(b.ReportBlocks[k].MetricBlocks) > 16384
+//@   ensures[C08] nobytes: err != nil ==> len(result) == 0
+//@   ensures[C03,C05] size: err == nil ==> len(result) == 12 + specCCBlocksLen(b.ReportBlocks, len(b.ReportBlocks))
+//@   ensures[C05] aligned: err == nil ==> len(result)%4 == 0
+//@   ensures[C03,C05,C07] header: err == nil ==> be32(result, 0) == specHeaderWord(false, 11, 205, uint16(len(result)/4-1))
+//@   ensures[C03] ssrc: err == nil ==> be32(result, 4) == b.SenderSSRC
+//@   ensures[C03] timestamp: err == nil ==> be32(result, len(result)-4) == b.ReportTimestamp
+//@   loop 1
+//@     invariant 0 <= iter() && iter() <= len(b.ReportBlocks) && offset == 8 + specCCBlocksLen(b.ReportBlocks, iter()) && offset >= 8
+//@     invariant[C08] forall k :: 0 <= k && k < iter() ==> len(b.ReportBlocks[k].MetricBlocks) <= 16384
+//@     invariant[C03] be32(buf, 0) == specHeaderWord(false, 11, 205, header.Length) && be32(buf, 4) == b.SenderSSRC
+//@     decreases len(b.ReportBlocks) - iter()
+
+//@ func (b *CCFeedbackReport) Unmarshal(rawPacket []byte) (err error)
+//@   safety[C01]
+//@   modifies *b
+//@   nocap
+//@   mathint
+//@   allocates[C01] 64 + 8*len(rawPacket)
+//@   ensures[C07] type: err == nil ==> rawPacket[0]>>6 == 2 && rawPacket[1] == 205 && rawPacket[0]&31 == 11
+//@   ensures[C04] fields: err == nil ==> b.SenderSSRC == be32(rawPacket, 4) && b.ReportTimestamp == be32(rawPacket, len(rawPacket)-4)
+//@   ensures[C04,C09] tiled: err == nil ==> 12 + specCCBlocksLen(b.ReportBlocks, len(b.ReportBlocks)) == len(rawPacket)
+//@   loop 1
+//@     invariant 8 <= offset && offset == 8 + specCCBlocksLen(b.ReportBlocks, len(b.ReportBlocks)) && reportTimestampOffset == len(rawPacket)-4 && unchanged(b.SenderSSRC) && unchanged(b.ReportTimestamp)
+//@     invariant[C01] allocated() <= 8*(offset-8)
+//@     decreases len(rawPacket) + 64 - offset
+
+//@ func (b CCFeedbackReport) String() (result string)
+//@   safety[C17]
+//@   loop 1
+//@     invariant 0 <= iter() && iter() <= len(b.ReportBlocks)
+//@     decreases len(b.ReportBlocks) - iter()
+
+//@ func (b CCFeedbackReportBlock) String() (result string)
+//@   safety[C17]
+//@   loop 1
+//@     invariant 0 <= iter() && iter() <= len(b.MetricBlocks)
+//@     decreases len(b.MetricBlocks) - iter()
